@@ -61,7 +61,8 @@ def run(ck):
     rng = ck.rng
     n = 300 if quick else 8000
     annotated = PC.generated_sources(ck, n)
-    sources = [("hand%d" % i, s) for i, s in enumerate(HAND)]
+    import scenarios
+    sources = [("hand%d" % i, s) for i, s in enumerate(HAND)] + scenarios.all_sources()
     lits = literal_operand_programs()
     if quick:
         lits = rng.sample(lits, 220) + [p for p in lits if "* 0" in p or "0 *" in p][:40]
@@ -165,7 +166,7 @@ def run(ck):
 
 
 # an integer literal without a type suffix in expression position (not a tuple index, not an array size)
-UNSUFFIXED = re.compile(r"(?<![\w.])(?<!; )\d+(?!\w)")
+UNSUFFIXED = re.compile(r"(?<![\w.])(?:(?<!; )\d+(?!\w)|(?<=; )\d+(?![\w\]]))")
 
 
 def known_key(rec):
